@@ -67,3 +67,79 @@ pub async fn settle(total: Duration, step: Duration) {
 pub fn now_ms(t0: tokio::time::Instant) -> u64 {
     t0.elapsed().as_millis() as u64
 }
+
+// ------------------------------------------------------------------------------------------
+// E1 hook: implements the in-tree `iroh_base::verif::Hook` for single-threaded async runs.
+
+use std::{
+    collections::BTreeMap,
+    sync::{Arc, Mutex},
+};
+
+use iroh_base::verif::{self, Hook};
+
+pub type StubFn = Box<dyn Fn(&str, &str) -> Option<String> + Send + Sync>;
+
+pub struct E1Hook {
+    ctx: Ctx,
+    rng: Mutex<Rng>,
+    /// site -> max number of yields (a seeded number in 0..=max is drawn per visit)
+    sites: BTreeMap<&'static str, u32>,
+    pub stub: Mutex<Option<StubFn>>,
+    /// wall clock = base + virtual elapsed + skew
+    pub wall: Mutex<Option<(u64, tokio::time::Instant, i64)>>,
+    pub log_events: bool,
+}
+
+pub struct HookGuard(pub Arc<E1Hook>);
+
+impl Drop for HookGuard {
+    fn drop(&mut self) {
+        verif::install(None);
+    }
+}
+
+impl E1Hook {
+    pub fn install(ctx: &Ctx, seed: u64, sites: &[(&'static str, u32)]) -> HookGuard {
+        let h = Arc::new(E1Hook {
+            ctx: ctx.clone(),
+            rng: Mutex::new(Rng::new(seed ^ 0xE1_400C)),
+            sites: sites.iter().cloned().collect(),
+            stub: Mutex::new(None),
+            wall: Mutex::new(None),
+            log_events: true,
+        });
+        verif::install(Some(h.clone() as Arc<dyn Hook>));
+        HookGuard(h)
+    }
+}
+
+impl Hook for E1Hook {
+    fn yields(&self, site: &'static str) -> u32 {
+        match self.sites.get(site) {
+            Some(max) if *max > 0 => {
+                let n = self.rng.lock().unwrap().range(0, *max as u64) as u32;
+                if n > 0 {
+                    self.ctx.count("probe.apoint_yielded");
+                }
+                n
+            }
+            _ => 0,
+        }
+    }
+    fn event(&self, site: &'static str, data: String) {
+        if self.log_events {
+            self.ctx.ev(format!("hook {site} {data}"));
+        }
+    }
+    fn stub(&self, site: &'static str, arg: &str) -> Option<String> {
+        self.stub.lock().unwrap().as_ref().and_then(|f| f(site, arg))
+    }
+    fn wall_clock_micros(&self) -> Option<u64> {
+        let g = self.wall.lock().unwrap();
+        g.map(|(base, t0, skew)| {
+            let el = t0.elapsed().as_micros() as i128;
+            (base as i128 + el + skew as i128).max(0) as u64
+        })
+    }
+}
